@@ -34,8 +34,12 @@ Qed.
 
 (* ---------- every engine delete of a scan is an expiry target or a compaction target ---------- *)
 
+Section Evp.
+(* scanner.Config.EventsPrefix *)
+Variable evp : bytes.
+
 Definition expiry_target (tr : N) (x : rec) : Prop :=
-  tr <> 0 /\ contains events_sub (rkey x) = true /\ rec_rev x <= tr.
+  tr <> 0 /\ is_expirable evp (rkey x) = true /\ rec_rev x <= tr.
 
 Definition compaction_target (R : N) (x : rec) : Prop :=
   match x with RVer _ r _ => r <= R | RIdx _ orev d => d = true /\ orev <= R end.
@@ -59,13 +63,13 @@ Proof.
   constructor; [exact Hx|exact Hf].
 Qed.
 
-Definition ccfg (R tr : N) : wcfg := mkCfg R true tr 0.
+Definition ccfg (R tr : N) : wcfg := mkCfg R true tr 0 evp.
 
 Lemma wbody_steps_ok R tr P x s :
   Forall (step_ok R tr P) (d_trace (w_d s)) -> w_pr s <= R -> P x ->
   Forall (step_ok R tr P) (d_trace (w_d (wbody (ccfg R tr) x s))) /\ w_pr (wbody (ccfg R tr) x s) <= R.
 Proof.
-  intros Hf Hp HP. unfold wbody, ccfg. cbn [w_tr w_rev w_compact].
+  intros Hf Hp HP. unfold wbody, ccfg. cbn [w_tr w_rev w_compact w_evp].
   destruct (tr =? 0) eqn:Etr.
   - (* no expiry *)
     destruct (R <? rrev x) eqn:HR; [split; assumption|]. apply N.ltb_ge in HR.
@@ -86,7 +90,7 @@ Proof.
       destruct (R <? orev) eqn:Eo; cbn [w_d w_pr]; [split; [exact H2|exact Hp]|].
       apply N.ltb_ge in Eo. split; [apply ed_steps_ok; [exact H2|right; split; [reflexivity|exact Eo]]|lia].
   - apply N.eqb_neq in Etr.
-    destruct (contains events_sub (rkey x)) eqn:Ec.
+    destruct (is_expirable evp (rkey x)) eqn:Ec.
     + destruct x as [k0 orev d0|k0 r0 v0]; cbn [rrev rkey] in *.
       * destruct (orev <=? tr) eqn:El.
         -- cbn [w_d w_pr]. split; [|exact Hp]. apply ed_steps_ok; [exact Hf|left].
@@ -195,7 +199,7 @@ Qed.
 (* the expiry decision of compactIfExpired *)
 Definition expire_kind (tr : N) (x : rec) : option dkind :=
   if tr =? 0 then None
-  else if contains events_sub (rkey x) then
+  else if is_expirable evp (rkey x) then
     match x with
     | RIdx _ orev _ => if orev <=? tr then Some KDelCur else None
     | RVer _ r _ => if r <=? tr then Some KDel else None
@@ -209,9 +213,9 @@ Lemma wbody_split R tr x s :
   | None => wbody (cfg R) x s
   end.
 Proof.
-  unfold wbody, ccfg, cfg, expire_kind. cbn [w_tr w_rev w_compact w_limit].
+  unfold wbody, ccfg, cfg, expire_kind. cbn [w_tr w_rev w_compact w_limit w_evp].
   destruct (tr =? 0); [reflexivity|].
-  destruct (contains events_sub (rkey x)); [|reflexivity].
+  destruct (is_expirable evp (rkey x)); [|reflexivity].
   destruct x as [k orev d|k r v]; cbn [rrev].
   - destruct (orev <=? tr); reflexivity.
   - destruct (r <=? tr); reflexivity.
@@ -221,7 +225,7 @@ Lemma expire_kind_target tr x kind : expire_kind tr x = Some kind ->
   expiry_target tr x /\ (kind = KDel -> is_ver x = true) /\ (kind = KDelCur -> is_ver x = false).
 Proof.
   unfold expire_kind, expiry_target. destruct (tr =? 0) eqn:Etr; [discriminate|]. apply N.eqb_neq in Etr.
-  destruct (contains events_sub (rkey x)) eqn:Ec; [|discriminate].
+  destruct (is_expirable evp (rkey x)) eqn:Ec; [|discriminate].
   destruct x as [k orev d|k r v]; cbn [rec_rev is_ver].
   - destruct (orev <=? tr) eqn:El; [|discriminate]. apply N.leb_le in El. intros E. injection E as <-.
     repeat split; auto; discriminate.
@@ -405,19 +409,19 @@ Qed.
    revision, one fault-free pass removes them all; the key then reads absent at the latest revision and
    can be created again *)
 Theorem expiry_whole R tr lo hi V k :
-  tr <> 0 -> contains events_sub k = true -> bleb lo k && bltb k hi = true ->
+  tr <> 0 -> is_expirable evp k = true -> bleb lo k && bltb k hi = true ->
   (forall x, In x V -> rkey x = k -> rec_rev x <= tr) ->
-  let d := compact_range R tr lo hi (init_d V []) in
+  let d := compact_range_e evp R tr lo hi (init_d V []) in
   (forall x, In x (d_store d) -> rkey x <> k) /\
   (forall x, In x (d_store d) -> In x V) /\
   get_at (d_store d) max_rev k = None /\
   forall v n, do_create (d_store d) k v n = (d_store d ++ [RIdx k n false; RVer k n v], WOk).
 Proof.
-  intros Htr Hc Hr Hall. cbv zeta. unfold compact_range. cbn [d_store d_ghost d_oc d_dead d_trace init_d].
+  intros Htr Hc Hr Hall. cbv zeta. unfold compact_range_e. cbn [d_store d_ghost d_oc d_dead d_trace init_d].
   set (snap := sort_by rec_ltb (filter (in_range lo hi) V)).
   set (s0 := init_w (mkD V V [] [] false [])).
   assert (Hf0 : ff (w_d s0)) by (repeat split).
-  change (mkCfg R true tr 0) with (ccfg R tr).
+  change (mkCfg R true tr 0 evp) with (ccfg R tr).
   destruct (wloop_ff_gone R tr snap s0 Hf0) as ((_ & Hsub) & Hgone).
   assert (Hnone : forall x, In x (d_store (w_d (wloop (ccfg R tr) snap s0))) -> rkey x <> k).
   { intros x Hx Hk. pose proof (Hsub _ Hx) as HxV. cbn [s0 init_w w_d d_store] in HxV.
@@ -435,9 +439,9 @@ Qed.
 Lemma compact_range_steps R tr lo hi d (P : rec -> Prop) :
   (forall x, In x (d_store d) -> P x) ->
   Forall (step_ok R tr P) (d_trace d) ->
-  Forall (step_ok R tr P) (d_trace (compact_range R tr lo hi d)).
+  Forall (step_ok R tr P) (d_trace (compact_range_e evp R tr lo hi d)).
 Proof.
-  intros HP Hf. unfold compact_range. change (mkCfg R true tr 0) with (ccfg R tr).
+  intros HP Hf. unfold compact_range_e. change (mkCfg R true tr 0 evp) with (ccfg R tr).
   apply wloop_steps_ok; cbn [init_w w_d w_pr d_trace]; [|exact Hf|lia].
   intros x Hx. apply in_sort_by in Hx. apply filter_In in Hx as [Hx _]. apply HP. exact Hx.
 Qed.
@@ -446,9 +450,9 @@ Qed.
    targets a compaction target (C07) or a record of a key containing "/events/" whose revision is at most
    the revision of a mark that is at least ttl old *)
 Theorem scanner_compact_steps sup ttl now R lo hi q V oc :
-  let '(q', tr, d) := scanner_compact sup ttl now R lo hi q (init_d V oc) in
+  let '(q', tr, d) := scanner_compact evp sup ttl now R lo hi q (init_d V oc) in
   (tr = 0 \/ (sup = false /\ exists t, In (tr, t) (q ++ [(R, now)]) /\ ttl <= now - t)) /\
-  Forall (fun s => (contains events_sub (rkey (ds_target s)) = true /\ rec_rev (ds_target s) <= tr /\ tr <> 0 /\
+  Forall (fun s => (is_expirable evp (rkey (ds_target s)) = true /\ rec_rev (ds_target s) <= tr /\ tr <> 0 /\
                     In (ds_target s) V)
                    \/ compaction_target R (ds_target s)) (d_trace d).
 Proof.
@@ -461,27 +465,16 @@ Proof.
   eapply Forall_impl; [|exact H]. intros s [[(E1 & E2 & E3) HP]|Hc]; [left|right; exact Hc]. auto.
 Qed.
 
-(* C17_only_events for stores without look-alike keys *)
-Theorem scanner_only_events_except_lookalikes prefix sup ttl now R lo hi q V oc :
-  (forall y, In y V -> contains events_sub (rkey y) = true -> is_event_key prefix (rkey y) = true) ->
-  let '(q', tr, d) := scanner_compact sup ttl now R lo hi q (init_d V oc) in
-  Forall (fun s => is_event_key prefix (rkey (ds_target s)) = true \/ compaction_target R (ds_target s)) (d_trace d).
-Proof.
-  intros Hno. pose proof (scanner_compact_steps sup ttl now R lo hi q V oc) as H.
-  destruct (scanner_compact sup ttl now R lo hi q (init_d V oc)) as [[q' tr] d]. destruct H as (_ & H).
-  eapply Forall_impl; [|exact H]. intros s [(E1 & _ & _ & E4)|Hc]; [left; apply Hno; assumption|right; exact Hc].
-Qed.
-
 (* C17_others_untouched (no concurrent writers, any fault placement): a stored record that is neither an
    expiry target nor a compaction target is still stored after the pass *)
 Theorem scanner_others_untouched sup ttl now R lo hi q V os :
   idx_unique V ->
-  let '(q', tr, d) := scanner_compact sup ttl now R lo hi q (init_d V (map (fun o => ([], o)) os)) in
+  let '(q', tr, d) := scanner_compact evp sup ttl now R lo hi q (init_d V (map (fun o => ([], o)) os)) in
   forall y, In y V -> ~ expiry_target tr y -> ~ compaction_target R y -> In y (d_store d).
 Proof.
   intros Hu. unfold scanner_compact.
   destruct (timeout_revision sup ttl now (q ++ [(R, now)])) as [tr q2].
-  intros y Hy H1 H2. unfold compact_range. change (mkCfg R true tr 0) with (ccfg R tr).
+  intros y Hy H1 H2. unfold compact_range_e. change (mkCfg R true tr 0 evp) with (ccfg R tr).
   cbn [init_d d_store d_ghost d_oc d_dead d_trace].
   set (d0 := mkD V V [] (map (fun o : outcome => ([] : list rec, o)) os) false []).
   assert (Ha : adds_of (w_d (init_w d0)) = []).
@@ -491,14 +484,6 @@ Proof.
   - cbn [init_w w_pr]. lia.
   - destruct (K y Hy) as [H|[H|H]]; [exact H|contradiction|contradiction].
 Qed.
-
-(* the TTL Backend.create hands to the engine *)
-Lemma create_ttl_contains ettl k : create_ttl ettl k <> 0 -> contains events_sub k = true.
-Proof. unfold create_ttl. destruct (contains events_sub k); [reflexivity|congruence]. Qed.
-
-Lemma create_ttl_event_except_lookalikes prefix ettl k :
-  (contains events_sub k = true -> is_event_key prefix k = true) -> create_ttl ettl k <> 0 -> is_event_key prefix k = true.
-Proof. intros H Hc. apply H. eapply create_ttl_contains; eauto. Qed.
 
 (* Badger's entry TTL (as modelled: an overwrite replaces the expiry): what disappears is old *)
 Lemma badger_put_exp t ttl x s :
@@ -557,23 +542,47 @@ Proof.
   - unfold V1. apply in_app_iff. right. left. reflexivity.
 Qed.
 
-(* the oracle accepts what the model produces for the TTL-choice cases, or names finding 1 on its signature *)
+End Evp.
+
+(* ---------- C17_only_events at full strength: the scanner is configured with <prefix>/events/ ---------- *)
+
+Lemma events_prefix_not_nil prefix : is_nil (events_prefix prefix) = false.
+Proof. unfold events_prefix. destruct prefix; reflexivity. Qed.
+
+Lemma is_expirable_event prefix k : is_expirable (events_prefix prefix) k = is_event_key prefix k.
+Proof. unfold is_expirable, is_event_key. rewrite events_prefix_not_nil. reflexivity. Qed.
+
+(* every engine delete of scanner.Compact is a compaction target (C07) or targets a stored record of an
+   Event key (a key under <prefix>/events/) whose revision is at most the timeout revision *)
+Theorem scanner_only_events prefix sup ttl now R lo hi q V oc :
+  let '(q', tr, d) := scanner_compact (events_prefix prefix) sup ttl now R lo hi q (init_d V oc) in
+  Forall (fun s => (is_event_key prefix (rkey (ds_target s)) = true /\ rec_rev (ds_target s) <= tr /\ tr <> 0 /\
+                    In (ds_target s) V)
+                   \/ compaction_target R (ds_target s)) (d_trace d).
+Proof.
+  pose proof (scanner_compact_steps (events_prefix prefix) sup ttl now R lo hi q V oc) as H.
+  destruct (scanner_compact (events_prefix prefix) sup ttl now R lo hi q (init_d V oc)) as [[q' tr] d]. destruct H as (_ & H).
+  eapply Forall_impl; [|exact H]. intros s [(E1 & E2)|Hc]; [left|right; exact Hc].
+  rewrite is_expirable_event in E1. split; assumption.
+Qed.
+
+(* the TTL Backend.create hands to the engine *)
+Lemma create_ttl_event ettl prefix k : create_ttl ettl prefix k <> 0 -> is_event_key prefix k = true.
+Proof. unfold create_ttl, is_event_key, events_prefix. destruct (has_prefix (prefix ++ events_sub) k); [reflexivity|congruence]. Qed.
+
+(* the oracle accepts what the model produces for the TTL-choice cases *)
 Lemma c17_oracle_sound_ttl_choice prefix ettl k ttls :
-  c17_check (KTtlChoice prefix ettl k ttls) = true ->
-  c17_oracle (KTtlChoice prefix ettl k ttls) = None \/
-  (c17_oracle (KTtlChoice prefix ettl k ttls) = Some 1 /\ contains events_sub k = true /\ is_event_key prefix k = false).
+  c17_check (KTtlChoice prefix ettl k ttls) = true -> c17_oracle (KTtlChoice prefix ettl k ttls) = None.
 Proof.
   cbn [c17_check c17_oracle]. intros H. apply andb_true_iff in H as [Hall Hne].
-  destruct (forallb (N.eqb 0) ttls) eqn:Ez; [left; reflexivity|].
-  destruct (is_event_key prefix k) eqn:Ee; [left; reflexivity|].
-  assert (Hc : contains events_sub k = true).
-  { destruct ttls as [|t ts]; [discriminate|]. cbn [forallb] in Hall, Ez.
-    apply andb_true_iff in Hall as [Ht Hts]. apply N.eqb_eq in Ht.
-    destruct (contains events_sub k) eqn:Ec; [reflexivity|]. exfalso.
-    assert (Hz : create_ttl ettl k = 0) by (unfold create_ttl; rewrite Ec; reflexivity).
-    rewrite Hz in *. subst t. cbn [N.eqb andb] in Ez.
-    assert (forallb (N.eqb 0) ts = true); [|congruence].
-    clear -Hts. induction ts as [|x ts IH]; [reflexivity|]. cbn [forallb] in *. apply andb_true_iff in Hts as [H1 H2].
-    rewrite H1. exact (IH H2). }
-  right. rewrite Hc. auto.
+  destruct (forallb (N.eqb 0) ttls) eqn:Ez; [reflexivity|].
+  destruct (is_event_key prefix k) eqn:Ee; [reflexivity|]. exfalso.
+  destruct ttls as [|t ts]; [discriminate|]. cbn [forallb] in Hall, Ez.
+  apply andb_true_iff in Hall as [Ht Hts]. apply N.eqb_eq in Ht.
+  assert (Hz : create_ttl ettl prefix k = 0).
+  { destruct (N.eq_dec (create_ttl ettl prefix k) 0) as [E|E]; [exact E|]. apply create_ttl_event in E. congruence. }
+  rewrite Hz in *. subst t. cbn [N.eqb andb] in Ez.
+  assert (forallb (N.eqb 0) ts = true); [|congruence].
+  clear -Hts. induction ts as [|x ts IH]; [reflexivity|]. cbn [forallb] in *. apply andb_true_iff in Hts as [H1 H2].
+  rewrite H1. exact (IH H2).
 Qed.
